@@ -37,3 +37,4 @@ constexpr bool lem_c20_sin_is_sin_of_arg_x(fixed_t d) { return sin_angle(d) == s
 inline void inst_c20_f(float f, fixed_t x) { (void)sin_angle(f); (void)cos_angle(f); (void)tan_angle(f); (void)sin_angle(x); (void)cos_angle(x); (void)tan_angle(x); }
 }
 }
+namespace vfspec { inline void inst_c07(fixedmath::fixed_t a, fixedmath::fixed_t b) { (void)fixedmath::hypot_aprox(a, b); (void)fixedmath::sqrt_aprox(a); } }
